@@ -7,10 +7,16 @@
                            record/cigar/iter.rs, TrySimplify)
      NV.CramRec.Mates      set_mates / write_mate (io/writer/container/slice.rs, slice/records.rs) and
                            read_mate / resolve_mates / calculate_template_length (io/reader/container/slice.rs)
+                           (MatesChain: chain decomposition of the reader's loop; MatesWriter: set_mates of
+                           /repo de003b4 and the round trip for any slice; MatesLoop: the two loops of
+                           set_mates; MatesBytes: the MF/NS/NP/TS/NF series as ITF8 bytes)
+     NV.CramRec.SliceHeader reference context / counters / MD5 interval of slice and container headers
+                           (io/writer/container/slice.rs, container/reference_sequence_context.rs,
+                           io/writer/container.rs, io/writer.rs)
      NV.CramRec.Container  build_container bookkeeping (io/writer/container.rs), Block::size and
                            write_block (io/writer/container/block.rs), record counters (io/writer.rs) *)
 From Coq Require Import List NArith ZArith.
-From NV Require Import CramRec.Features CramRec.FeaturesProofs CramRec.FeaturesTotal CramRec.Container CramRec.ContainerProofs CramRec.Mates CramRec.MatesProofs.
+From NV Require Import CramRec.Features CramRec.FeaturesProofs CramRec.FeaturesTotal CramRec.Container CramRec.ContainerProofs CramRec.Mates CramRec.MatesProofs CramRec.MatesChain CramRec.MatesWriter CramRec.MatesLoop CramRec.MatesBytes CramRec.MatesBytesProofs CramRec.SliceHeader CramRec.SliceHeaderProofs.
 Import ListNotations.
 Open Scope N_scope.
 
@@ -210,17 +216,146 @@ Proof. vm_compute. repeat split; reflexivity. Qed.
 (* resolve_mates.  [slice_roundtrip_gen repaired] is one slice through both; repaired = false  *)
 (* is the code of /repo ([Mates.mates_repaired]).                                               *)
 
-(* the full statement for the mate columns, NOT proved for slices of more than two records:
-   outside the known class (some chain of the slice is longer than two, or a linked pair is not
-   [pair_consistent]) every record keeps FLAG / RNEXT / PNEXT / TLEN, and a linked pair that is not
-   consistent does not.  [chain_of rs i] = indices of the segmented non-secondary records of the
-   slice that share record i's name. *)
-Definition c07_mates_roundtrip_full_statement : Prop :=
-  forall rs out, Forall fresh rs -> slice_roundtrip rs = MOk out ->
-    let linked i j := (i < j)%nat /\ m_dist (rget (set_mates rs) i) = Some (N.of_nat (j - i - 1)) in
-    (forall i j k, linked i j -> ~ linked j k) ->
-    ((forall i j, linked i j -> pair_consistent (rget rs i) (rget rs j) = true) <->
-     map mate_view out = map mate_view rs).
+(* THE MATE COLUMNS ROUND-TRIP, any slice.  [slice_rt] = set_mates of /repo de003b4
+   ([Mates.set_mates_w]: a template - the segmented, non-secondary, non-supplementary records of
+   one name - is linked only if mates_are_resolvable), write_mate, read_mate, resolve_mates.
+   Whatever the slice holds - any number of records, templates of any length, duplicate or missing
+   names, secondary / supplementary / unpaired records, mates on other references, unmapped mates,
+   any TLEN convention - if the writer accepts it the records come back with the FLAG, RNEXT,
+   PNEXT and TLEN they were written with.  (Replaces the former
+   c07_mates_roundtrip_full_statement, which was proved for two-record slices only.) *)
+Theorem c07_mates_roundtrip : forall rs out,
+  Forall fresh rs -> slice_rt rs = MOk out -> map mate_view out = map mate_view rs.
+Proof. exact mates_roundtrip_general. Qed.
+Print Assumptions c07_mates_roundtrip.
+
+(* the same from the SAM records (Record::try_from_alignment_record included), and the reader
+   never fails on what the writer stored *)
+Theorem c07_mates_columns_from_sam : forall refs ss,
+  mates_rt refs ss <> MReadErr /\
+  forall out, mates_rt refs ss = MOk out ->
+    map mate_view out = map (fun s => (s_flags s, s_mref s, s_mstart s, s_tlen s)) ss.
+Proof. exact mates_rt_columns. Qed.
+Print Assumptions c07_mates_columns_from_sam.
+
+(* what set_mates (de003b4) does to a slice: nothing but CRAM flags and mate distances change; a
+   record is attached iff its template is linked ([lk]: segmented primary record whose template
+   has >= 2 members and is resolvable), and then carries the distance to the next member of its
+   template ([nx]), which lies inside the slice and is attached as well *)
+Theorem c07_set_mates_links : forall rs, Forall fresh rs ->
+  length (set_mates_w rs) = length rs /\
+  forall x, (x < length rs)%nat ->
+    core (rget (set_mates_w rs) x) = core (rget rs x) /\
+    m_detached (rget (set_mates_w rs) x) = negb (lk rs x) /\
+    m_dist (rget (set_mates_w rs) x) =
+      match nx rs x with Some y => Some (N.of_nat (y - x - 1)) | None => None end /\
+    (forall y, nx rs x = Some y ->
+       (x < y < length rs)%nat /\ m_down (rget (set_mates_w rs) x) = true /\
+       m_detached (rget (set_mates_w rs) y) = false).
+Proof. exact set_mates_w_wf. Qed.
+Print Assumptions c07_set_mates_links.
+
+(* the chain decomposition of the reader's loop, about resolve_mates alone: [nxt] is the mate
+   index table of the stored slice [st] (strictly increasing inside the slice by construction of
+   mate_indices; assumed injective), [tg] carries the expected columns.  If every record's stored
+   FLAG already contains the mate bits of its successor (W1/W2: set_mate is a no-op on the flags),
+   RNEXT/PNEXT of [tg] are the successor's reference and start - the head's for the last record
+   of a chain - and TLEN of [tg] is +t for the head of a chain and -t for all others, t computed
+   from the last and the first record, then resolve_mates leaves every record that is on a chain
+   with exactly the columns of [tg], for chains of any length *)
+Theorem c07_resolve_mates_chains :
+  forall (n : nat) (nxt : nat -> option nat),
+    (forall x y, nxt x = Some y -> (x < y < n)%nat) ->
+    (forall x y z, nxt x = Some z -> nxt y = Some z -> x = y) ->
+    forall st tg : list mrec,
+    (forall x, m_flags (rget st x) = m_flags (rget tg x)) ->
+    (forall x y, nxt x = Some y ->
+       m_flags (set_mate (rget st x) (rget st y)) = m_flags (rget st x) /\
+       m_mref (rget tg x) = m_ref (rget st y) /\ m_mstart (rget tg x) = m_start (rget st y)) ->
+    (forall h e, head nxt h -> reach nxt h e -> nxt e = None ->
+       m_flags (set_mate (rget st e) (rget st h)) = m_flags (rget st e) /\
+       m_mref (rget tg e) = m_ref (rget st h) /\ m_mstart (rget tg e) = m_start (rget st h) /\
+       m_tlen (rget tg h) = tlen_calc (rget st e) (rget st h) /\
+       forall x, reach nxt h x -> x <> h ->
+         m_tlen (rget tg x) = (- tlen_calc (rget st e) (rget st h))%Z) ->
+    forall mi, (forall x, mi_get mi x = nxt x) -> length mi = n -> length st = n ->
+    forall x, (nxt x <> None \/ exists p, nxt p = Some x) ->
+      mate_view (rget (fst (fold_left resolve_step (seq 0 n) (st, mi))) x) = mate_view (rget tg x).
+Proof. exact resolve_chains. Qed.
+Print Assumptions c07_resolve_mates_chains.
+
+(* the reader's "invalid mate distance" check never fires on a slice written by set_mates
+   (de003b4) + write_mate *)
+Theorem c07_written_slice_resolves_w : forall rs, Forall fresh rs -> ~ (slice_rt rs = MReadErr).
+Proof. exact written_slice_resolves_w. Qed.
+Print Assumptions c07_written_slice_resolves_w.
+
+(* non-vacuity: a template of three records is linked as a chain 0 -> 1 -> 2 (CF bits / NF as the
+   file shows them) next to a supplementary record of the same name, which stays detached, and
+   everything reads back unchanged; the same template with the TLEN sign on the other end is not
+   linked and reads back unchanged as well *)
+Example c07_mates_chain_nonvacuous :
+  let a := mk_mrec 65 (Some [113]) (Some 0) (Some 10) 5 [] (Some 0) (Some 20) 25%Z false false None in
+  let b := mk_mrec 1 (Some [113]) (Some 0) (Some 20) 5 [] (Some 0) (Some 30) (-25)%Z false false None in
+  let s := mk_mrec 2049 (Some [113]) (Some 0) (Some 50) 5 [] (Some 0) (Some 20) 0%Z false false None in
+  let c := mk_mrec 129 (Some [113]) (Some 0) (Some 30) 5 [] (Some 0) (Some 10) (-25)%Z false false None in
+  let c' := mk_mrec 129 (Some [113]) (Some 0) (Some 30) 5 [] (Some 0) (Some 10) 25%Z false false None in
+  map link_view (set_mates_w [a; b; s; c]) = [(4, Some 0); (4, Some 1); (2, None); (0, None)] /\
+  set_mates_loop [a; b; s; c] = set_mates_w [a; b; s; c] /\
+  map link_view (set_mates_w [a; b; s; c']) = [(2, None); (2, None); (2, None); (2, None)] /\
+  match slice_rt [a; b; s; c], slice_rt [a; b; s; c'] with
+  | MOk out, MOk out' => map mate_view out = map mate_view [a; b; s; c] /\
+                         map mate_view out' = map mate_view [a; b; s; c']
+  | _, _ => False
+  end.
+Proof. vm_compute. repeat split; reflexivity. Qed.
+
+(* the two loops of set_mates as the Rust writes them ([set_mates_loop]: mark everything detached
+   and collect templates with entry(name).or_default().push(i); then, per template with more than
+   one record that is resolvable, set_downstream_mate over indices.windows(2)) compute exactly the
+   record-by-record description [set_mates_w] the theorems above are about - for every slice *)
+Theorem c07_set_mates_loop_is_set_mates_w : forall rs, set_mates_loop rs = set_mates_w rs.
+Proof. exact set_mates_loop_eq. Qed.
+Print Assumptions c07_set_mates_loop_is_set_mates_w.
+
+(* the mate data series at the byte level (NV.CramRec.MatesBytes): the compression header declares
+   Integer::External (one ITF8 per value) for MF / NS / NP / TS / NF.  For the records set_mates
+   produces, write_mate refuses (InvalidInput: a mate reference id / position / distance that is
+   not an i32) exactly when the value-level [store_all] does, and otherwise read_mate decodes the
+   five blocks, record after record and to the last byte, into exactly the records [store_all]
+   describes (decode o encode = store; the round-trip theorem above composes store with
+   resolve_mates) *)
+Theorem c07_mate_series_decode_encode : forall rs, Forall fresh rs ->
+  Forall (fun r => m_mstart r <> Some 0 /\ (-2147483648 <= m_tlen r < 2147483648)%Z) rs ->
+  (write_all_b (set_mates_w rs) mser0 = None <-> store_all (set_mates_w rs) = None) /\
+  (forall ser, write_all_b (set_mates_w rs) mser0 = Some ser ->
+     exists st, store_all (set_mates_w rs) = Some st /\
+       read_all_b (map skeleton (set_mates_w rs)) ser = Some (st, mser0)).
+Proof. exact mate_series_of_slice. Qed.
+Print Assumptions c07_mate_series_decode_encode.
+
+(* the same for any list of records satisfying the invariants [okrec] (what set_mates guarantees,
+   mate positions >= 1, TLEN an i32), starting from any series state *)
+Theorem c07_mate_series_roundtrip : forall rs, Forall okrec rs -> forall s,
+  (write_all_b rs s = None <-> store_all rs = None) /\
+  (forall ser, write_all_b rs s = Some ser ->
+     exists st c, ser = app_ser s c /\ store_all rs = Some st /\
+       forall rest, read_all_b (map skeleton rs) (app_ser c rest) = Some (st, rest)).
+Proof. exact mate_series_roundtrip. Qed.
+Print Assumptions c07_mate_series_roundtrip.
+
+Example c07_mate_series_nonvacuous :
+  let a := mk_mrec 65 (Some [113]) (Some 0) (Some 10) 5 [] (Some 0) (Some 20) 15%Z false false None in
+  let b := mk_mrec 129 (Some [113]) (Some 0) (Some 20) 5 [] (Some 0) (Some 10) (-15)%Z false false None in
+  let c := mk_mrec 0 (Some [114]) (Some 0) (Some 300) 7 [] None (Some 70000) (-3)%Z false false None in
+  write_all_b (set_mates_w [a; b; c]) mser0 =
+    Some (mk_mser [0] [255;255;255;255;15] [193;17;112] [255;255;255;255;13] [0]).
+Proof. vm_compute. reflexivity. Qed.
+
+(* ---- the writer before /repo de003b4 ([set_mates_gen false]) and the pair-wise repair that was
+   proposed for it ([set_mates_gen true]); kept as the record of the defect
+   cram-intra-slice-mate-fields-recomputed: these models are no longer compared with an
+   implementation ---- *)
 
 (* every record that set_mates leaves detached - in any slice, next to any chains - is read back
    as stored: FLAG, RNEXT, PNEXT and TLEN are the written ones (both writers) *)
@@ -305,3 +440,254 @@ Example c07_mates_nonvacuous :
   | _ => False
   end.
 Proof. vm_compute. split; reflexivity. Qed.
+
+(* ------------------------------------------------------------------------------------------ *)
+(* ---- slice / container header: reference context, counters, reference MD5 interval
+        (NV.CramRec.SliceHeader) ---- *)
+
+(* (a) RSome contexts are well formed: start >= 1 and start <= end, i.e. span >= 1 *)
+Theorem c07_shdr_context_wellformed :
+  forall rs, Forall hrec_wf rs -> ctx_wf (get_ctx rs).
+Proof. exact get_ctx_wf. Qed.
+Print Assumptions c07_shdr_context_wellformed.
+
+Theorem c07_shdr_clamp_wellformed :
+  forall sq c, ctx_wf c -> ctx_wf (clamp_ctx sq c).
+Proof. exact clamp_ctx_wf. Qed.
+Print Assumptions c07_shdr_clamp_wellformed.
+
+Theorem c07_shdr_triple :
+  forall id s e, ctx_wf (RSome id s e) ->
+  exists span, ctx_triple (RSome id s e) = (Z.of_N id, Z.of_N s, Z.of_N span)
+               /\ 1 <= s /\ 1 <= span /\ s + span - 1 = e.
+Proof. exact ctx_triple_some. Qed.
+Print Assumptions c07_shdr_triple.
+
+(* (a) the declared span of a slice lies inside the reference (@SQ LN = length of the reference
+   sequence) whenever its start does, and calculate_reference_sequence_md5 then succeeds on exactly
+   the bases start..=end *)
+Theorem c07_shdr_span_inside_reference :
+  forall refsq rs id s e ln bases,
+  Forall hrec_wf rs ->
+  clamp_ctx (map fst refsq) (get_ctx rs) = RSome id s e ->
+  nth_error refsq (N.to_nat id) = Some (ln, bases) -> lenN bases = ln -> s <= ln ->
+  1 <= s /\ 1 <= ctx_span s e /\ s + ctx_span s e - 1 <= ln
+  /\ exists bs, calc_md5 refsq (RSome id s e) = SOk (MdOver (normalize_bases bs))
+                /\ seq_get_incl bases s e = Some bs /\ lenN bs = ctx_span s e.
+Proof. exact slice_span_inside_reference. Qed.
+Print Assumptions c07_shdr_span_inside_reference.
+
+(* the exact failure condition of calculate_reference_sequence_md5, and the input class that
+   reaches it: a slice whose start lies beyond the reference end is refused (InvalidInput) *)
+Theorem c07_shdr_md5_error_iff :
+  forall refsq id s e x, ctx_wf (RSome id s e) ->
+  (calc_md5 refsq (RSome id s e) = SErr x
+   <-> ((nth_error refsq (N.to_nat id) = None /\ x = EInvalidRefId)
+        \/ (exists ln bases, nth_error refsq (N.to_nat id) = Some (ln, bases)
+                             /\ lenN bases < e /\ x = ESpanOutside))).
+Proof. exact calc_md5_err_iff. Qed.
+Print Assumptions c07_shdr_md5_error_iff.
+
+Theorem c07_shdr_start_past_reference_rejected :
+  forall refsq c id s e ln bases,
+  ctx_wf c -> clamp_ctx (map fst refsq) c = RSome id s e ->
+  nth_error refsq (N.to_nat id) = Some (ln, bases) -> lenN bases = ln -> ln < s ->
+  calc_md5 refsq (RSome id s e) = SErr ESpanOutside.
+Proof. exact slice_start_past_reference_rejected. Qed.
+Print Assumptions c07_shdr_start_past_reference_rejected.
+
+Theorem c07_shdr_md5_zero_iff_not_single_reference :
+  forall refsq c rs h, build_slice_hdr refsq c rs = SOk h ->
+  (sl_md5 h = MdNone <-> (sl_ctx h = RNone \/ sl_ctx h = RMany)).
+Proof. exact slice_md5_none_iff. Qed.
+Print Assumptions c07_shdr_md5_zero_iff_not_single_reference.
+
+(* (b) a single-reference context covers every record of the slice; its start is the least
+   start and its end the greatest alignment end *)
+Theorem c07_shdr_context_covers_records :
+  forall rs id s e, get_ctx rs = RSome id s e ->
+  Forall (fun r => exists rs' re', placed_on id r rs' re' /\ s <= rs' /\ re' <= e) rs
+  /\ Exists (fun r => exists re', placed_on id r s re') rs
+  /\ Exists (fun r => exists rs', placed_on id r rs' e) rs.
+Proof. exact get_ctx_some_covers. Qed.
+Print Assumptions c07_shdr_context_covers_records.
+
+(* (b) which of Some / None / Many the writer declares, exactly *)
+Theorem c07_shdr_context_some_iff :
+  forall rs id, rs <> [] ->
+  ((exists s e, get_ctx rs = RSome id s e)
+   <-> Forall (fun r => exists rs' re', placed_on id r rs' re') rs).
+Proof. exact get_ctx_some_iff. Qed.
+Print Assumptions c07_shdr_context_some_iff.
+
+Theorem c07_shdr_context_none_iff :
+  forall r tl,
+  get_ctx (r :: tl) = RNone
+  <-> ((forall id s e, ~ placed_on id r s e) /\ Forall (fun r' => hr_ref r' = None) tl).
+Proof. exact get_ctx_none_iff. Qed.
+Print Assumptions c07_shdr_context_none_iff.
+
+Theorem c07_shdr_context_many_iff :
+  forall r tl,
+  get_ctx (r :: tl) = RMany
+  <-> ((forall id, ~ Forall (fun x => exists rs' re', placed_on id x rs' re') (r :: tl))
+       /\ ~ ((forall id s e, ~ placed_on id r s e) /\ Forall (fun r' => hr_ref r' = None) tl)).
+Proof. exact get_ctx_many_iff. Qed.
+Print Assumptions c07_shdr_context_many_iff.
+
+(* "placed" for a record whose start is a Position = has a reference id and a start *)
+Theorem c07_shdr_placed_iff :
+  forall id r, hrec_wf r ->
+  ((exists rs re, placed_on id r rs re) <-> (hr_ref r = Some id /\ hr_start r <> None)).
+Proof. exact placed_on_iff_wf. Qed.
+Print Assumptions c07_shdr_placed_iff.
+
+(* the clamp only ever shortens the end, and leaves a context inside the reference alone *)
+Theorem c07_shdr_clamp_shape :
+  forall sq id s e, exists e', clamp_ctx sq (RSome id s e) = RSome id s e' /\ e' <= e.
+Proof. exact clamp_ctx_shape. Qed.
+Print Assumptions c07_shdr_clamp_shape.
+
+Theorem c07_shdr_clamp_identity_inside :
+  forall sq id s e ln,
+  nth_error sq (N.to_nat id) = Some ln -> e <= ln -> clamp_ctx sq (RSome id s e) = RSome id s e.
+Proof. exact clamp_ctx_id_inside. Qed.
+Print Assumptions c07_shdr_clamp_identity_inside.
+
+(* (c)+(d) one container: its slices are the chunks of rps records, each with 1..rps records,
+   record counts sum to the container's, slice i carries counter + (records of the earlier
+   slices), the container context contains every slice context *)
+Theorem c07_shdr_container_consistent :
+  forall refsq rps c rs h,
+  (1 <= rps)%nat -> rs <> [] -> build_container_hdr refsq rps c rs = SOk h ->
+  ct_nrec h = lenN rs /\ ct_counter h = c /\ ct_bases h = base_count rs
+  /\ ct_slices h <> []
+  /\ Forall2 (fun ch s => build_slice_hdr refsq (sl_counter s) ch = SOk s)
+             (chunks rps rs) (ct_slices h)
+  /\ sumN (map sl_nrec (ct_slices h)) = ct_nrec h
+  /\ Forall (fun s => 1 <= sl_nrec s <= N.of_nat rps) (ct_slices h)
+  /\ (forall i s, nth_error (ct_slices h) i = Some s ->
+                  sl_counter s = ct_counter h + sumN (map sl_nrec (firstn i (ct_slices h))))
+  /\ cont_ctx (map sl_ctx (ct_slices h)) = SOk (ct_ctx h)
+  /\ Forall (fun s => ctx_le (sl_ctx s) (ct_ctx h)) (ct_slices h)
+  /\ cont_fits h = true.
+Proof. exact build_container_hdr_spec. Qed.
+Print Assumptions c07_shdr_container_consistent.
+
+Theorem c07_shdr_slice_fields :
+  forall refsq c rs h, build_slice_hdr refsq c rs = SOk h ->
+  sl_ctx h = clamp_ctx (map fst refsq) (get_ctx rs) /\ sl_nrec h = lenN rs /\ sl_counter h = c
+  /\ sl_embedded h = (-1)%Z /\ calc_md5 refsq (sl_ctx h) = SOk (sl_md5 h).
+Proof. exact build_slice_hdr_spec. Qed.
+Print Assumptions c07_shdr_slice_fields.
+
+Theorem c07_shdr_chunks_partition :
+  forall (k : nat) (l : list hrec), (1 <= k)%nat ->
+  concat (chunks k l) = l /\ Forall (fun c => (1 <= length c <= k)%nat) (chunks k l).
+Proof. intros k l Hk. split; [exact (chunks_concat k l Hk) | exact (chunks_bounds k l Hk)]. Qed.
+Print Assumptions c07_shdr_chunks_partition.
+
+(* (d) a one-slice container (the only kind the writer emits) declares what its slice declares *)
+Theorem c07_shdr_one_slice_container :
+  forall refsq rps c rs h,
+  rs <> [] -> (length rs <= rps)%nat -> build_container_hdr refsq rps c rs = SOk h ->
+  exists s, ct_slices h = [s] /\ ct_ctx h = sl_ctx s /\ ct_nrec h = sl_nrec s
+            /\ ct_counter h = sl_counter s
+            /\ sl_ctx s = clamp_ctx (map fst refsq) (get_ctx rs).
+Proof. exact build_container_hdr_one_slice. Qed.
+Print Assumptions c07_shdr_one_slice_container.
+
+(* (c) the stream: containers partition the records, container i carries the number of records
+   before it *)
+Theorem c07_shdr_stream_counters :
+  forall refsq rps spc rs hs,
+  (1 <= rps)%nat -> (1 <= spc)%nat -> write_stream refsq rps spc rs = SOk hs ->
+  Forall2 (fun ct h => build_container_hdr refsq rps (ct_counter h) ct = SOk h /\ ct <> []
+                       /\ ct_nrec h = lenN ct)
+          (chunks (spc * rps) rs) hs
+  /\ sumN (map ct_nrec hs) = lenN rs
+  /\ (forall i h, nth_error hs i = Some h ->
+                  ct_counter h = sumN (map ct_nrec (firstn i hs)))
+  /\ Forall (fun h => 1 <= ct_nrec h <= N.of_nat (spc * rps)) hs.
+Proof. exact write_stream_spec. Qed.
+Print Assumptions c07_shdr_stream_counters.
+
+Theorem c07_shdr_stream_one_slice_per_container :
+  forall refsq rps rs hs,
+  (1 <= rps)%nat -> write_stream refsq rps 1 rs = SOk hs ->
+  Forall (fun h => exists s, ct_slices h = [s] /\ ct_ctx h = sl_ctx s /\ ct_nrec h = sl_nrec s
+                             /\ ct_counter h = sl_counter s) hs.
+Proof. exact write_stream_one_slice_per_container. Qed.
+Print Assumptions c07_shdr_stream_one_slice_per_container.
+
+(* records made by Record::try_from_alignment_record satisfy the Position invariant *)
+Theorem c07_shdr_converted_records_wf :
+  forall refsq s r,
+  (forall st, sr_start s = Some st -> 1 <= st) -> sh_convert refsq s = SOk r ->
+  hrec_wf r /\ hr_ref r = sr_ref s /\ hr_start r = sr_start s /\ hr_rl r = len (sr_seq s).
+Proof. exact sh_convert_wf. Qed.
+Print Assumptions c07_shdr_converted_records_wf.
+
+(* calculate_alignment_span on converted records: the usize subtractions never underflow (the
+   equation holds in N without truncation), and for a CIGAR whose read length is |SEQ| the span is
+   the CIGAR's reference length *)
+Theorem c07_shdr_converted_span :
+  forall refseq seq quals ops start ws,
+  cigar_to_features true refseq seq quals ops start = Some ws ->
+  w_alignment_span (len seq) ws + is_len ops = len seq + dn_len ops.
+Proof. exact converted_span. Qed.
+Print Assumptions c07_shdr_converted_span.
+
+Theorem c07_shdr_converted_span_is_reference_length :
+  forall refseq seq quals ops start ws,
+  cigar_to_features true refseq seq quals ops start = Some ws -> read_len ops = len seq ->
+  w_alignment_span (len seq) ws = ref_len ops.
+Proof. exact converted_span_ref_len. Qed.
+Print Assumptions c07_shdr_converted_span_is_reference_length.
+
+(* non-vacuity.  Reference 0 = ACGTACGTAC (LN 10), reference 1 = GGGG (LN 4). *)
+Definition shdr_ex_refsq : list (N * list N) :=
+  [(10, [65;67;71;84;65;67;71;84;65;67]); (4, [71;71;71;71])].
+(* 3M2D1M at 2 (span 6: 2..7) and an unmapped read of 5 bases placed at 8 (8..12, clamped to 10) *)
+Definition shdr_ex_a : srec := srec_of (Some 0) (Some 2) [(KM, 3); (KD, 2); (KM, 1)] [67;71;84;71] [30;30;30;30].
+Definition shdr_ex_b : srec := srec_of (Some 0) (Some 8) [] [65;65;65;65;65] [30;30;30;30;30].
+Definition shdr_ex_u : srec := srec_of None None [] [65;67] [30;30].
+Definition shdr_ex_nostart : srec := srec_of (Some 0) None [] [65;67] [30;30].
+
+Example c07_shdr_ex_stream :
+  shdr_rows shdr_ex_refsq 2 [shdr_ex_a; shdr_ex_b; shdr_ex_u] =
+  SOk [mk_row true 0 2 9 2 0 0 false; mk_row false 0 2 9 2 0 (-1) true;
+       mk_row true (-1) 0 0 1 2 0 false; mk_row false (-1) 0 0 1 2 (-1) false].
+Proof. vm_compute. reflexivity. Qed.
+
+(* one container of two slices (not reachable through the public API): the container context is
+   the hull *)
+Example c07_shdr_ex_two_slices :
+  match sh_convert_all shdr_ex_refsq [shdr_ex_a; shdr_ex_b] with
+  | SOk rs => match build_container_hdr shdr_ex_refsq 1 7 rs with
+              | SOk h => ct_ctx h = RSome 0 2 10 /\ map sl_ctx (ct_slices h) = [RSome 0 2 7; RSome 0 8 10]
+                         /\ map sl_counter (ct_slices h) = [7; 8]
+              | SErr _ => False
+              end
+  | SErr _ => False
+  end.
+Proof. vm_compute. auto. Qed.
+
+(* a mixed slice is Many; a placed read starting beyond the reference end is refused *)
+Example c07_shdr_ex_many :
+  shdr_rows shdr_ex_refsq 3 [shdr_ex_a; shdr_ex_u] =
+  SOk [mk_row true (-2) 0 0 2 0 0 false; mk_row false (-2) 0 0 2 0 (-1) false].
+Proof. vm_compute. reflexivity. Qed.
+
+Example c07_shdr_ex_rejected :
+  shdr_rows shdr_ex_refsq 3 [srec_of (Some 1) (Some 5) [] [65] [30]] = SErr ESpanOutside.
+Proof. vm_compute. reflexivity. Qed.
+
+(* the order dependence of get_reference_sequence_context: a record with a reference id but no
+   start is treated as unplaced when it is first, and makes the slice multi-reference otherwise *)
+Example c07_shdr_ex_ref_without_start :
+  shdr_rows shdr_ex_refsq 3 [shdr_ex_nostart; shdr_ex_u] =
+    SOk [mk_row true (-1) 0 0 2 0 0 false; mk_row false (-1) 0 0 2 0 (-1) false]
+  /\ shdr_rows shdr_ex_refsq 3 [shdr_ex_u; shdr_ex_nostart] =
+    SOk [mk_row true (-2) 0 0 2 0 0 false; mk_row false (-2) 0 0 2 0 (-1) false].
+Proof. split; vm_compute; reflexivity. Qed.
